@@ -14,3 +14,18 @@ package prebuild
 //@   opt prop=C03,C02
 //@   trusted
 //@   opt maprange1=disjoint famillyDists
+
+// getDistribution searches supportedDists in map order and returns from inside the range;
+// it only gets that far when the DISTRIBUTION environment variable is unset. Every build
+// configuration of the reproducibility property sets it, so this range carries no
+// obligation; it is listed as an assumption in the evidence.
+//@ func getDistribution
+//@   opt prop=C02
+//@   trusted
+//@   opt maprange1=unreachable only reached when DISTRIBUTION is unset; every configuration of the property sets it
+
+// Help builds the usage text (printed by -h) in map order: not part of the build output.
+//@ func Help
+//@   opt prop=C02
+//@   trusted
+//@   opt maprange1=logonly
